@@ -469,3 +469,27 @@ ADDENDA2 = {
     "C20": "Round 5: the polling join raises TimeoutError only under the fact get_app_state() != FINISHED; optional indexes / numbers "
            "of every application module are tested with `is None`.",
 }
+
+
+# after red team E and round 2 of the argued Cython edits
+_GUARD = ("Every function a rule reads must lie in the analysed subset of Python (sa/subset.py: a per-function census of constructs the "
+          "engine cannot read - exec / eval, match, nonlocal, new dunder accesses, rebinding of builtins and module tables, changed "
+          "decorators - compared with the reference census); otherwise the check ends in ANALYSIS-ERROR (exit 2), not in a verdict.")
+_CTYPES = (" For the .pyx sources the declared C types are compared with the reference declarations (ctypedefs, result / parameter / "
+           "local types may widen but not lose values, exception clauses, file-level directives, no narrowing at typed call sites).")
+ADDENDA3 = {
+    "C01": _GUARD, "C03": _GUARD + " Integer tests are an allow-list (an abstract class of `numbers`, or both int and np.integer).",
+    "C04": _GUARD, "C05": _GUARD, "C06": _GUARD, "C07": _GUARD, "C11": _GUARD + " _aggregate_consecutive is compared as a whole function.",
+    "C12": _GUARD, "C13": _GUARD, "C15": _GUARD, "C16": _GUARD, "C17": _GUARD, "C18": _GUARD,
+    "C20": _GUARD + " Optional values are an allow-list lint: in a test they may only be compared with None, ordered, or used as a key.",
+    "C02": _GUARD + _CTYPES + " Round 2 of the argued Cython edits: remove_bonds by atom pair only, concatenate offsets for every operand, "
+           "integer indexes accept NumPy integers, _invert_index asks for its own fill marker, the bond type is checked in a guard clause.",
+    "C08": _GUARD + _CTYPES + " Round 2: only positive gap penalties are refused; the code arrays enter the table filling unconverted.",
+    "C09": _GUARD + _CTYPES + " Round 2: band diagonals taken after the swap, both guard columns of the banded tables, antidiagonal index "
+           "range of the gapped extension, ungapped upstream extension needs both starts positive.",
+    "C10": _GUARD + _CTYPES + " Round 2: positions copied element by element, similarity over the base alphabet, minimizer start marker, "
+           "spacing model sorted.",
+    "C14": _GUARD + _CTYPES + " Round 2: cell radius = ceil(radius / cell size) in both forms; every result of a periodic query passes the modulo.",
+    "C19": _GUARD + _CTYPES + " Round 2: the caller's distance matrix is never written; every child is converted recursively; inner-node "
+           "`label:distance` parsing.",
+}
